@@ -147,3 +147,107 @@ Lemma tie_sorter_compare : TIE_sorter_compare =
    (0, "conststructentry*b=*((conststructentry**)vb)");
    (0, "return(bytes_compare(entry_key(a),a->len_key,entry_key(b),b->len_key))")].
 Proof. reflexivity. Qed.
+
+(* libmy/vector.h: whole file *)
+Lemma tie_vector_h : TIE_vector_h =
+  [(0, "#include<assert.h>");
+   (0, "#include""my_alloc.h""");
+   (0, "#defineVECTOR_GENERATE(name,type)\");
+   (0, "typedefstructname##__vector");
+   (1, "\type*_v");
+   (1, "\type*_p");
+   (1, "\size_t_n,_n_alloced,_hint");
+   (1, "\");
+   (0, "name");
+   (0, "\__attribute__((unused))\staticinlinename*\name##_init(unsignedhint)\");
+   (1, "\name*vec");
+   (1, "\vec=my_calloc(1,sizeof(name))");
+   (1, "\if(hint==0)hint=1");
+   (1, "\vec->_hint=vec->_n_alloced=hint");
+   (1, "\vec->_v=my_malloc(vec->_n_alloced*sizeof(type))");
+   (1, "\vec->_p=&(vec->_v[0])");
+   (1, "\return(vec)");
+   (1, "\");
+   (0, "\__attribute__((unused))\staticinlinevoid\name##_reinit(unsignedhint,name*vec)\");
+   (1, "\if(hint==0)hint=1");
+   (1, "\vec->_hint=vec->_n_alloced=hint");
+   (1, "\vec->_n=0");
+   (1, "\vec->_v=my_malloc(vec->_n_alloced*sizeof(type))");
+   (1, "\vec->_p=&(vec->_v[0])");
+   (1, "\");
+   (0, "\__attribute__((unused))\staticinlinevoid\name##_detach(name*vec,type**out,size_t*outsz)\");
+   (1, "\*(out)=(vec)->_v");
+   (1, "\*(outsz)=(vec)->_n");
+   (1, "\(vec)->_n=0");
+   (1, "\(vec)->_n_alloced=(vec)->_hint");
+   (1, "\(vec)->_v=my_malloc((vec)->_n_alloced*sizeof(type))");
+   (1, "\(vec)->_p=&(vec->_v[0])");
+   (1, "\");
+   (0, "\__attribute__((unused))\staticinlinevoid\name##_destroy(name**vec)\");
+   (1, "\if(*vec)");
+   (2, "\my_free((*vec)->_v)");
+   (2, "\my_free((*vec))");
+   (2, "\");
+   (1, "\");
+   (0, "\__attribute__((unused))\staticinlinevoid\name##_reserve(name*vec,size_tn_elems)\");
+   (1, "\while((n_elems)>((vec)->_n_alloced-(vec)->_n))");
+   (2, "\(vec)->_n_alloced*=2");
+   (2, "\(vec)->_v=my_realloc((vec)->_v,(vec)->_n_alloced\*sizeof(type))");
+   (2, "\(vec)->_p=&((vec)->_v[(vec)->_n])");
+   (2, "\");
+   (1, "\");
+   (0, "\__attribute__((unused))\staticinlinevoid\name##_add(name*vec,typeelem)\");
+   (1, "\while((vec)->_n+1>(vec)->_n_alloced)");
+   (2, "\(vec)->_n_alloced*=2");
+   (2, "\(vec)->_v=my_realloc((vec)->_v,(vec)->_n_alloced\*sizeof(type))");
+   (2, "\(vec)->_p=&((vec)->_v[(vec)->_n])");
+   (2, "\");
+   (1, "\(vec)->_v[(vec)->_n]=elem");
+   (1, "\(vec)->_n+=1");
+   (1, "\(vec)->_p=&((vec)->_v[(vec)->_n])");
+   (1, "\");
+   (0, "\__attribute__((unused))\staticinlinevoid\name##_append(name*vec,typeconst*elems,size_tn_elems)\");
+   (1, "\name##_reserve(vec,n_elems)");
+   (1, "\memcpy((vec)->_v+(vec)->_n,elems,(n_elems)*sizeof(type))");
+   (1, "\(vec)->_n+=(n_elems)");
+   (1, "\(vec)->_p=&((vec)->_v[(vec)->_n])");
+   (1, "\");
+   (0, "\__attribute__((unused))\staticinlinevoid\name##_extend(name*vec0,name*vec1)\");
+   (1, "\name##_append(vec0,(vec1)->_v,(vec1)->_n)");
+   (1, "\");
+   (0, "\__attribute__((unused))\staticinlinevoid\name##_reset(name*vec)\");
+   (1, "\(vec)->_n=0");
+   (1, "\if((vec)->_n_alloced>(vec)->_hint)");
+   (2, "\(vec)->_n_alloced=(vec)->_hint");
+   (2, "\(vec)->_v=my_realloc((vec)->_v,(vec)->_n_alloced\*sizeof(type))");
+   (2, "\");
+   (1, "\(vec)->_p=&(vec->_v[0])");
+   (1, "\");
+   (0, "\__attribute__((unused))\staticinlinevoid\name##_clip(name*vec,size_tn_elems)\");
+   (1, "\if(n_elems<(vec)->_n)");
+   (2, "\(vec)->_n=n_elems");
+   (2, "\(vec)->_p=&((vec)->_v[(vec)->_n])");
+   (2, "\");
+   (1, "\");
+   (0, "\__attribute__((unused))\staticinlinesize_t\name##_bytes(name*vec)\");
+   (1, "\return((vec)->_n*sizeof(type))");
+   (1, "\");
+   (0, "\__attribute__((unused))\staticinlinesize_t\name##_size(name*vec)\");
+   (1, "\return((vec)->_n)");
+   (1, "\");
+   (0, "\__attribute__((unused))\staticinlinetype\name##_value(name*vec,size_ti)\");
+   (1, "\assert(i<(vec)->_n)");
+   (1, "\return((vec)->_v[i])");
+   (1, "\");
+   (0, "\__attribute__((unused))\staticinlinetype*\name##_ptr(name*vec)\");
+   (1, "\return((vec)->_p)");
+   (1, "\");
+   (0, "\__attribute__((unused))\staticinlinetype*\name##_data(name*vec)\");
+   (1, "\return((vec)->_v)");
+   (1, "\");
+   (0, "\__attribute__((unused))\staticinlinevoid\name##_advance(name*vec,size_tx)\");
+   (1, "\assert(x<=((vec)->_n_alloced-(vec)->_n))");
+   (1, "\(vec)->_n+=x");
+   (1, "\(vec)->_p=&((vec)->_v[(vec)->_n])");
+   (1, "\")].
+Proof. reflexivity. Qed.
